@@ -218,7 +218,31 @@ def c_restore(ctx):
     if not enter or not exit_:
         raise AnalysisError("LLMParams.__enter__/__exit__ not found", anchor=PARAMS + "::LLMParams.__enter__")
     enter, exit_ = enter[0], exit_[0]
+    enter0 = enter
+    # the loop that alters the parameters may live in a method that __enter__ calls on self (so that __enter__ can undo a half-done alteration)
+    if not any(isinstance(l, ast.For) and "altered_params" in src(l.iter) for l in ast.walk(enter)):
+        called = {c.func.attr for c in ast.walk(enter) if isinstance(c, ast.Call) and isinstance(c.func, ast.Attribute) and src(c.func.value) == "self"}
+        for f in cls.body:
+            if isinstance(f, ast.FunctionDef) and f.name in called and any(isinstance(l, ast.For) and "altered_params" in src(l.iter) for l in ast.walk(f)):
+                enter = f
     es, xs = src(enter), src(exit_)
+    # altering can fail half way (setattr on a pydantic model raises for a name that is not a field): the `with` body is then never entered and __exit__ never runs, so
+    # __enter__ itself has to put back what it has already changed (F135)
+    rollback = False
+    for tr_ in [x for x in ast.walk(enter0) if isinstance(x, ast.Try)]:
+        alters = any(isinstance(c, ast.Call) and (src(c.func) == "setattr" or (isinstance(c.func, ast.Attribute) and src(c.func.value) == "self" and c.func.attr == enter.name))
+                     for st in tr_.body for c in ast.walk(st))
+        for h in tr_.handlers:
+            restores = any(isinstance(c, ast.Call) and (src(c.func) in ("self.__exit__",) or "restore" in src(c.func)) for st in h.body for c in ast.walk(st)) or \
+                any(isinstance(l, ast.For) and "original_params" in src(l.iter) for st in h.body for l in ast.walk(st))
+            reraises = any(isinstance(r, ast.Raise) for st in h.body for r in ast.walk(st))
+            if alters and restores and reraises and (h.type is None or src(h.type) in ("Exception", "BaseException")):
+                rollback = True
+    ctx.check("C15.c.enter-rollback", PARAMS, "LLMParams.__enter__", "a failing alteration is undone", rollback,
+              "when altering a parameter raises, the parameters altered so far are restored before the error is passed on" if rollback else
+              "the parameters are altered one by one with no rollback: if one `setattr` raises (e.g. `stream`, which every LangChain model has as a method but not as a field) the "
+              "`with` body is not entered, __exit__ never runs, and the parameters already applied - temperature, max_tokens of THIS request - stay on the shared model for every "
+              "later conversation", line=enter0.lineno)
 
     def _loop_vars(fn, coll):
         for l in ast.walk(fn):
@@ -301,7 +325,7 @@ def d_contextvars(ctx):
     cfg = CFG(gen)
     runs = [n for n in cfg.nodes if n.ast is not None and any(isinstance(c, ast.Call) and src(c.func) in ("self.runtime.generate_events", "self.runtime.process_events")
                                                                 for c in walk_no_nested(n.ast))]
-    for var in ("generation_options_var", "llm_stats_var", "raw_llm_request"):
+    for var in ("generation_options_var", "llm_stats_var", "raw_llm_request", "streaming_handler_var"):
         snodes = [cfg.node_of(c) for c in sets if c.func.value.id == var]
         ok = bool(snodes) and bool(runs) and all(cfg.must_pass(cfg.entry, r, snodes) for r in runs)
         ctx.check("C15.d.reset-every-request", LLMRAILS, "LLMRails.generate_async", "%s.set on every path" % var, ok,
@@ -347,9 +371,10 @@ def d_entry_points(ctx):
         for c in ast.walk(ctx.tree.ast(rel)):
             if isinstance(c, ast.Call) and isinstance(c.func, ast.Attribute) and c.func.attr == "get" and isinstance(c.func.value, ast.Name) and c.func.value.id in cvars:
                 read_by_actions.add(c.func.value.id)
-    # variables whose value is request DATA (not the handler/statistics objects an entry point may legitimately inherit from its caller)
-    data_vars = sorted(v for v in set_by_generate & read_by_actions if v in ("raw_llm_request", "generation_options_var"))
-    ctx.floor("C15.d.entry-points", LLMRAILS, "request-data context variables read by the generation actions", len(data_vars), 2, data_vars)
+    # variables whose value belongs to ONE request (not the statistics object an entry point may legitimately inherit from its caller): the raw request, the options, and the
+    # streaming handler the actions push the reply into - a handler left by an earlier streamed request receives this conversation's reply
+    data_vars = sorted(v for v in set_by_generate & read_by_actions if v in ("raw_llm_request", "generation_options_var", "streaming_handler_var"))
+    ctx.floor("C15.d.entry-points", LLMRAILS, "request-data context variables read by the generation actions", len(data_vars), 3, data_vars)
     cls = find_class(tr, "LLMRails")
     n = 0
     for f in [m for m in cls.body if isinstance(m, ast.AsyncFunctionDef) and m.name != "generate_async"]:
